@@ -317,7 +317,7 @@ def _build_partition(pi: int, part: dict, base: int) -> Tuple[bytes, PartitionLa
     for v in vols:
         bl = [file_body(f) for f in v.get("files", [])]
         bodies.append(bl)
-        need += sectors_needed(FILE_ENT * (len(bl) + 1))
+        need += sectors_needed(FILE_ENT * (len(bl) + len(v.get("ghosts", [])) + 1))
         need += sum(sectors_needed(len(b)) for b in bl)
     # one guard sector per reserved-run directory so that a run is always
     # followed by a non-reserved sector
@@ -352,7 +352,7 @@ def _build_partition(pi: int, part: dict, base: int) -> Tuple[bytes, PartitionLa
         d = v.get("dir", {})
         if d.get("mode") == "run":
             rng = random.Random(d.get("seed", 0))
-            k = sectors_needed(FILE_ENT * (len(bodies[vi]) + 1))
+            k = sectors_needed(FILE_ENT * (len(bodies[vi]) + len(v.get("ghosts", [])) + 1))
             # take k+1 consecutive, last is the guard (returned to the pool but
             # never used as a run start or a run member)
             saved = list(al.free)
@@ -386,7 +386,7 @@ def _build_partition(pi: int, part: dict, base: int) -> Tuple[bytes, PartitionLa
         if dir_chains[vi] is None:
             d = v.get("dir", {})
             rng = random.Random(d.get("seed", 0))
-            k = sectors_needed(FILE_ENT * (len(bodies[vi]) + 1))
+            k = sectors_needed(FILE_ENT * (len(bodies[vi]) + len(v.get("ghosts", [])) + 1))
             ch = al.take(k, d.get("policy", "contiguous"), rng)
             link(ch)
             dir_chains[vi] = ch
@@ -414,7 +414,17 @@ def _build_partition(pi: int, part: dict, base: int) -> Tuple[bytes, PartitionLa
         vl = VolumeLayout(pi, vi, v["name"], base + HDR_BYTES + VOL_ENT * vi, dch,
                           [base + s * SECTOR for s in dch], v.get("dir", {}).get("mode", "chain"))
         table = bytearray()
+        ghosts = sorted(v.get("ghosts", []), key=lambda g: g[0])
+
+        def emit_ghosts(upto):
+            # entries of deleted files: start sector 0 marks the slot as unused, the rest of the entry is stale
+            nonlocal table, ghosts
+            while ghosts and ghosts[0][0] <= upto:
+                _, gname, gtype = ghosts.pop(0)
+                table += akname(gname) + b"\0" * 4 + bytes([gtype & 0xFF]) + (777).to_bytes(3, "little") + struct.pack("<H", 0) + b"\0\0"
+
         for fi, f in enumerate(v.get("files", [])):
+            emit_ghosts(fi)
             ch = file_chains[vi][fi]
             body = bodies[vi][fi]
             ent_rel = len(table)
@@ -425,11 +435,22 @@ def _build_partition(pi: int, part: dict, base: int) -> Tuple[bytes, PartitionLa
             vl.files.append(FileLayout(pi, vi, fi, f["name"], f["kind"], ch, len(body),
                                        base + dch[sec_i] * SECTOR + sec_o,
                                        [base + s * SECTOR for s in ch]))
+        emit_ghosts(10 ** 9)
         table += b"\0" * 8 + struct.pack("<H", END_FLAG) + b"\0" * 14
         put(dch, bytes(table))
-        vent += akname(v["name"]) + struct.pack("<HH", v.get("vtype", 3) & 0xFFFF, dch[0])
         pl.volumes.append(vl)
-    vent += (akname("") + struct.pack("<HH", 0, 0)) * (N_VOL - len(vols))
+    # the 100-entry volume table: active volumes may sit in any increasing set of slots, with stale inactive entries between
+    vslots = part.get("vslots") or list(range(len(vols)))
+    if len(vslots) != len(vols) or sorted(set(vslots)) != list(vslots) or (vslots and vslots[-1] >= N_VOL):
+        raise ScenarioInvalid("bad volume slots")
+    entries = [akname("") + struct.pack("<HH", 0, 0)] * N_VOL
+    for k in range(N_VOL):
+        if part.get("stale_volumes") and k not in vslots and k < (vslots[-1] if vslots else 0):
+            entries[k] = akname("OLD %d" % k) + struct.pack("<HH", 0, (k % 7) + 3)
+    for vi, v in enumerate(vols):
+        entries[vslots[vi]] = akname(v["name"]) + struct.pack("<HH", v.get("vtype", 3) & 0xFFFF, dir_chains[vi][0])
+        pl.volumes[vi].entry_off = base + HDR_BYTES + VOL_ENT * vslots[vi]
+    vent = bytearray(b"".join(entries))
     x = nsect // 128 - 1
     hdr = struct.pack("<H", nsect) + b"\0\0" + MAGIC \
         + bytes([0x55 if x % 2 == 0 else 0xD5, (x // 2 + 0xBA) & 0xFF]) + b"\x2F\x00"
